@@ -339,5 +339,28 @@ def second_partial_cancel_overtaken_by_fill():
 ALL.append(second_partial_cancel_overtaken_by_fill)
 
 
+def stream_ends_while_another_market_has_a_request_in_flight():
+    """event group of two markets, one strategy each: market 2's file ends between the update at which strategy 0 sends an order for
+    market 1 and market 1's next update - the request waits in the shared latency queue across the end of the other stream and is
+    executed all the same (C13-m9 shape: the queue cleared whenever ONE stream of the group runs out)"""
+    ups1 = [
+        update(T0, two()),
+        update(T0 + 4000, two(), acts={"0": [create(0, 0, 1, "BACK", 2.0, 5.0), ["place", "t0", None, False]]}),
+        update(T0 + 5000, two()),
+        update(T0 + 6000, two()),
+    ]
+    ups2 = [
+        update(T0 + 100, two(), acts={"1": [create(1, 1, 2, "BACK", 3.0, 4.0), ["place", "t1", None, False]]}),
+        update(T0 + 4500, two()),
+    ]
+    sc = scenario([market(101, ups1), market(102, ups2)], strategies=2, event_processing=True)
+    sc["strategies"][0]["markets"] = [0]
+    sc["strategies"][1]["markets"] = [1]
+    return sc
+
+
+ALL.append(stream_ends_while_another_market_has_a_request_in_flight)
+
+
 def all_scenarios():
     return [f() for f in ALL]
